@@ -6,6 +6,7 @@ id=$1; name=$2; wt=/tmp/wt/$id; out=$wt/seed_out
 [ -f $out/patch.diff ] || { echo "no patch"; exit 1; }
 cd $wt || exit 1
 git checkout -q -- . ; git clean -fdq -e seed_out
+git checkout -q --detach $(git -C /repo rev-parse HEAD)
 mkdir -p /tmp/wt/_keep_$id && rm -rf /tmp/wt/_keep_$id/* && cp -r $out/* /tmp/wt/_keep_$id/ && rm -rf $out
 git apply /tmp/wt/_keep_$id/patch.diff || { echo "patch does not apply"; exit 1; }
 pkgdir=$(git diff --name-only | head -1 | xargs dirname)
